@@ -160,6 +160,11 @@ def run(ctx, rep):
             mirrors = d.of_operand(G['mirrors'])
             count = d.of_operand(G['count'])
             calls = lambda toks: {tk[1].rsplit('::', 1)[-1] for tk in toks if tk[0] == 'call'}
+            # the active-FAT number: the getter, or bits 0-3 of the extended flags decoded in place
+            inline_active = lambda toks: {('field', 'extended_flags'), ('const', 0x0F), ('op', 'BitAnd')} <= toks
+            if inline_active(first):
+                first = first | {('call', 'inline::active_fat')}
+                G['inline_active'] = True
             if arm == 'mirroring':
                 if ('field', 'fats') not in mirrors:
                     probs.append('with mirroring enabled the number of copies written does not come from bpb.fats')
@@ -203,8 +208,15 @@ def run(ctx, rep):
     for name, mask, what in (('fatfs::boot_sector::BiosParameterBlock::mirroring_enabled', 0x80, 'bit 7'),
                              ('fatfs::boot_sector::BiosParameterBlock::active_fat', 0x0F, 'bits 0-3')):
         fn = facts.fns.get(name)
-        if fn is None:
-            rep.machinery('ANCHOR-MISSING ' + name)
+        if fn is None or fn.crate != 'fatfs':
+            # decoded in place (a `FatMirroring` enum instead of the two getters): the masks were seen at the sites above -
+            # bit 7 in the switch that selects the arm (_mirroring_switch), bits 0-3 in the start of the single-copy arm
+            inl = bool(sites) and all(
+                switch_source(G['fn'], G['sw']) and switch_source(G['fn'], G['sw'])['kind'] == 'binop' and
+                (name.endswith('mirroring_enabled') or G.get('inline_active')) for G in sites)
+            rep.oblige('R10.2.flags', name, ok=inl, nontrivial=True, sample={'decoded': 'in place'})
+            if not inl:
+                rep.machinery('ANCHOR-MISSING ' + name)
             continue
         d = Deps(fn)
         toks = d.of_local(0)
